@@ -51,6 +51,7 @@ type connInfo struct {
 	inCallback bool
 	faulted    bool   // an errno was injected on this connection
 	fatal      string // a non-retryable errno was delivered to a system call made for this connection
+	ioFailed   bool   // any injected errno (also one that struck while the connection was being closed)
 }
 
 type state struct {
@@ -205,7 +206,9 @@ func oracleSys(raw, canon string) {
 			data := util.UnHex(get("data"))
 			ci.toKernel = append(ci.toKernel, data[:n]...)
 			// C02: what is handed to the kernel must be the next accepted bytes, in order
-			if len(ci.toKernel) > len(ci.accepted) || !bytes.Equal(ci.accepted[:len(ci.toKernel)], ci.toKernel) {
+			// (C02 speaks of connections that stay open until their output has drained: after a system call of this
+			// connection has failed its accepted output may be dropped, whatever is written afterwards is not "next")
+			if !ci.ioFailed && (len(ci.toKernel) > len(ci.accepted) || !bytes.Equal(ci.accepted[:len(ci.toKernel)], ci.toKernel)) {
 				fail(fmt.Sprintf("C02: bytes handed to the kernel on %s are not the next accepted bytes (sent %d, accepted %d)", ci.cid, len(ci.toKernel), len(ci.accepted)))
 			}
 		}
@@ -320,7 +323,7 @@ func checkBuffered(c gnet.Conn, ci *connInfo) {
 	if got := len(ci.consumed) + c.InboundBuffered(); got != ci.delivered {
 		fail(fmt.Sprintf("C01: consumed %d + InboundBuffered %d != delivered %d on %s", len(ci.consumed), c.InboundBuffered(), ci.delivered, ci.cid))
 	}
-	if got := len(ci.toKernel) + c.OutboundBuffered(); got != len(ci.accepted) && !ci.fdClosed {
+	if got := len(ci.toKernel) + c.OutboundBuffered(); got != len(ci.accepted) && !ci.fdClosed && !ci.ioFailed {
 		fail(fmt.Sprintf("C02: handed to kernel %d + OutboundBuffered %d != accepted %d on %s", len(ci.toKernel), c.OutboundBuffered(), len(ci.accepted), ci.cid))
 	}
 }
@@ -781,8 +784,13 @@ func newLoop(ws []string) string {
 			if q := st.directive[k]; len(q) > 0 {
 				st.directive[k] = q[1:]
 				if d := q[0]; d.Kind == "errno" && d.Errno != unix.EAGAIN && d.Errno != unix.EINTR {
-					if ci := st.conns[nameOf(fd)]; ci != nil && !strings.HasPrefix(call, "epoll_ctl_Delete") && call != "close" {
+					// a failure that strikes while the connection is already being closed (a write inside OnClose) cannot
+					// change the error OnClose was given: only failures before OnClose count for the C18 oracle
+					if ci := st.conns[nameOf(fd)]; ci != nil && !strings.HasPrefix(call, "epoll_ctl_Delete") && call != "close" && ci.closedCB == 0 {
 						ci.fatal = call + ":" + unix.ErrnoName(d.Errno)
+					}
+					if ci := st.conns[nameOf(fd)]; ci != nil {
+						ci.ioFailed = true
 					}
 				}
 				return q[0]
